@@ -28,13 +28,32 @@ def cli_formats():
     if _formats is not None:
         return _formats
     rec = {}
-    orig = argparse.ArgumentParser.add_argument
+    orig = argparse._ActionsContainer.add_argument      # (parsers and argument groups alike)
+    orig_group = argparse._ActionsContainer.add_argument_group
+    orig_mutex = argparse._ActionsContainer.add_mutually_exclusive_group
+
+    def spy_group(self, *a, **k):
+        g = orig_group(self, *a, **k)
+        g._verif_owner = self
+        return g
+
+    def spy_mutex(self, *a, **k):
+        g = orig_mutex(self, *a, **k)
+        g._verif_owner = self
+        return g
 
     def spy(self, *a, **k):
-        if '--format' in a:
-            rec[getattr(self, 'prog', '').split()[-1]] = list(k.get('choices') or [])
+        if '--format' in a or '-f' in a:
+            owner = self
+            while not getattr(owner, 'prog', None) and getattr(owner, '_verif_owner', None) is not None:
+                owner = owner._verif_owner
+            prog = (getattr(owner, 'prog', '') or '').split()
+            if prog:
+                rec[prog[-1]] = list(k.get('choices') or [])
         return orig(self, *a, **k)
-    argparse.ArgumentParser.add_argument = spy
+    argparse._ActionsContainer.add_argument = spy
+    argparse._ActionsContainer.add_argument_group = spy_group
+    argparse._ActionsContainer.add_mutually_exclusive_group = spy_mutex
     old = sys.argv
     try:
         import depccg.argparse as A
@@ -47,7 +66,9 @@ def cli_formats():
                 pass
     finally:
         sys.argv = old
-        argparse.ArgumentParser.add_argument = orig
+        argparse._ActionsContainer.add_argument = orig
+        argparse._ActionsContainer.add_argument_group = orig_group
+        argparse._ActionsContainer.add_mutually_exclusive_group = orig_mutex
     if 'en' not in rec or 'ja' not in rec:
         raise runner.HarnessError('could not read the --format choice lists from depccg.argparse')
     _formats = {lang: [f for f in fs if f not in ('ccg2lambda', 'jigg_xml_ccg2lambda')] for lang, fs in rec.items()}
@@ -129,7 +150,7 @@ def records(fmt, text):
         for k in range(1, len(parts) - 1, 2):
             out.setdefault(int(parts[k]), []).append(parts[k + 1].strip())
         return out
-    raise runner.HarnessError(f'no record splitter for format {fmt}')
+    return None         # a format this harness has no record splitter for: it is rendered, its records are not compared
 
 
 def build_batch(case):
@@ -183,6 +204,8 @@ def check_case(case, info=None):
                     continue
                 a = records(fmt, text)
                 b = records(fmt, ref)
+                if a is None or b is None:
+                    continue
                 keep = [i + 1 for i, s in enumerate(case['batch']) if s != 'FAILED']
                 got = [a.get(i) for i in keep]
                 want = [b.get(j + 1) for j in range(len(keep))]
